@@ -70,10 +70,19 @@ def _twin(w):
 def _snapshot(w):
     try:
         bb = w.bounding_box
-        box = None if bb is None else [[repr(iv[0]), repr(iv[1])] for iv in bb.bounding_box(order="F")]
+        box = None if bb is None else [[repr(iv[0]), repr(iv[1])] for iv in bb.bounding_box(order="F")] + [bb.order]
     except Exception as e:
         box = "err:" + C.exc_enum(e)
+    def inv_box(t):
+        ui = getattr(t, "_user_inverse", None)
+        if ui is None:
+            return None
+        try:
+            return repr(ui.bounding_box.bounding_box())
+        except NotImplementedError:
+            return "no box"
     return {"frames": list(w.available_frames),
+            "user_inverse_boxes": [None if s.transform is None else inv_box(s.transform) for s in w.pipeline],
             "params": [None if s.transform is None else [float(x) for x in s.transform.parameters] for s in w.pipeline],
             "tids": [id(s.transform) for s in w.pipeline],
             "bbox": box, "pixel_shape": None if w.pixel_shape is None else list(w.pixel_shape)}
@@ -222,6 +231,18 @@ def _build_sep(case):
     return w
 
 
+def _build_userinv(case):
+    """one step whose transform has a user-supplied inverse that carries a validity box of its own"""
+    a, b = case["shift"]
+    t = models.Shift(a) & models.Shift(b)
+    ui = models.Shift(-a) & models.Shift(-b)
+    ui.bounding_box = tuple(tuple(x) for x in case["inv_box"])[::-1]
+    t.inverse = ui
+    w = gw.WCS([(cf.Frame2D(name="detector"), t), (cf.Frame2D(name="world"), None)])
+    w.bounding_box = ((-5.0, 45.0), (-5.0, 25.0))      # single step, non-square box
+    return w
+
+
 def _build_units(case):
     import astropy.units as u
     from astropy import coordinates as coord
@@ -248,6 +269,8 @@ def impl(case):
         w = _build_units(case)
     elif case.get("kind") == "sep":
         w = _build_sep(case)
+    elif case.get("kind") == "userinv":
+        w = _build_userinv(case)
     else:
         w = S.build(case["params"], with_bbox=case.get("bbox0", True))
     steps = []
@@ -400,6 +423,8 @@ def stats(case, res, st):
         st["units"] += 1
     elif case.get("kind") == "sep":
         st["separable3"] += 1
+    elif case.get("kind") == "userinv":
+        st["user_inverse_with_box"] += 1
     else:
         st["analytic0" if case["params"]["dist"] is None else "iterative0"] += 1
 
@@ -531,6 +556,21 @@ def gen(rng, tier):
                     ev["sampling"] = rng.choice([1, 2])
                 evs.append(ev)
         yield {"kind": "sep", "t1": sep_spec(), "t2": sep_spec(False), "box": box, "events": evs}
+    for _ in range(6 if tier == "quick" else 150):
+        box = [[0.0, float(rng.randint(5, 30))], [0.0, float(rng.randint(5, 30))]]
+        evs = []
+        for _e in range(rng.randint(3, 6)):
+            q = rng.choice(["get", "invert", "in_image", "get", "forward", "props"])
+            ev = {"k": "query", "q": q}
+            if q == "get":
+                ev["from"], ev["to"] = "world", "detector"
+                ev["pt"] = [rng.uniform(-10, 40), rng.uniform(-10, 40)]
+            elif q in ("invert", "in_image"):
+                ev["world"] = [[rng.uniform(-10, 40), rng.uniform(-10, 40)] for _i in range(3)]
+            elif q == "forward":
+                ev["pts"] = [[rng.uniform(-10, 40), rng.uniform(-10, 40)] for _i in range(3)]
+            evs.append(ev)
+        yield {"kind": "userinv", "shift": [float(rng.randint(-5, 5)), float(rng.randint(-5, 5))], "inv_box": box, "events": evs}
     for _ in range(4 if tier == "quick" else 100):
         evs = []
         for _e in range(rng.randint(2, 6)):
